@@ -82,6 +82,7 @@ def random_geometry_recipe(rng, kind):
         r["parts"] = [meshes.random_recipe(rng, bases=["tetra", "box", "octa", "prism5"], variants=["plain"]) for _ in range(rng.randint(1, 3))]
         r["instances"] = [[rng.randrange(3), rng.randrange(4), rng.choice(["identity", "translation", "rigid", "similarity"])] for _ in range(rng.randint(1, 4))]
         r["colors"] = rng.choice([None, "vertex"])
+        r["extras"] = rng.choice([[], [], [], ["cloud"], ["empty"], ["cloud", "empty"]])
     elif kind == "points":
         r["n"] = rng.choice([1, 3, 17])
         r["colors"] = rng.random() < 0.5
@@ -91,6 +92,9 @@ def random_geometry_recipe(rng, kind):
         r["n"] = rng.choice([2, 3, 5, 9])
         r["fill"] = rng.choice([0.2, 0.5, 0.9, 0.01, 0.995])
         r["pitch"] = rng.choice([1.0, 0.25, 0.1, 0.0123456789, 1.0 / 3.0, 7.7])
+        if rng.random() < 0.35:
+            r["dims"] = rng.choice([[8, 8, 8], [10, 10, 10], [11, 11, 11], [16, 16, 16]])  # (binvox holds one scale: cubic grids only)
+            r["runs"] = [rng.choice([1, 2, 7, 100, 254, 255, 255, 256, 300, 509, 510, 510, 511, 765, 766, 1020]) for _ in range(rng.randint(2, 8))]
         # grid origin: simple values, or coordinates that need all the digits of a double
         r["origin"] = [0.5, -1.0, 2.0] if rng.random() < 0.4 else [round(rng.uniform(-2000.0, 2000.0), rng.choice([3, 6, 9, 12])) for _ in range(3)]
     return r
@@ -148,6 +152,11 @@ def build_geometry(r, fmt=None):
             geoms.append(g)
         nodes = ["world"]
         used = set()
+        extras = list(r.get("extras") or [])
+        base = (fmt or "").split("_", 1)[1] if (fmt or "").startswith(("zip_", "targz_", "tarbz2_", "bz2_")) else (fmt or "")
+        if "cloud" in extras and base in ("glb", "gltf", "obj", "stl", "ply", ""):
+            # a point cloud ahead of the meshes (formats that cannot hold points at all are not asked to)
+            sc.add_geometry(trimesh.PointCloud(np.round(rs.uniform(-1, 1, (5, 3)), 4)), node_name="cloud_node", geom_name="cloud", transform=mx.hom(None, [4.0, 0.5, -1.0]))
         for j, (gi, pi, cls) in enumerate(r["instances"]):
             gi = gi % len(geoms)
             parent = nodes[pi % len(nodes)]
@@ -159,6 +168,9 @@ def build_geometry(r, fmt=None):
             else:
                 sc.graph.update(frame_to=node, frame_from=parent, matrix=M, geometry=f"geom{gi}")
             nodes.append(node)
+            if j == 0 and "empty" in extras:
+                # a geometry with vertices but not a single face, in the middle of the geometry order
+                sc.add_geometry(trimesh.Trimesh(vertices=np.round(rs.uniform(-1, 1, (3, 3)), 4), faces=np.zeros((0, 3), dtype=np.int64), process=False), node_name="empty_node", geom_name="empty", transform=mx.hom(None, [0.0, 6.0, 0.0]))
         return sc
     if kind == "points":
         V = np.round(rs.uniform(-3, 3, (r["n"], 3)), 5)
@@ -209,6 +221,23 @@ def build_geometry(r, fmt=None):
         # rounded: a stadium = two lines + two half-circle arcs
         P = np.array([[0, 0], [2, 0], [2.5, 0.5], [2, 1], [0, 1], [-0.5, 0.5]], dtype=float)
         return trimesh.path.Path2D(entities=[Line([0, 1]), Arc([1, 2, 3]), Line([3, 4]), Arc([4, 5, 0])], vertices=P, process=False)
+    if kind == "voxel" and r.get("runs"):
+        # a grid laid out as explicit runs in the order binvox stores cells (x, z, y): lengths around the 255-per-byte limit of its run-length code
+        nx, ny, nz = r["dims"]
+        flat = np.zeros(nx * ny * nz, dtype=bool)
+        pos, val = 0, bool(r["runs"][0] % 2)
+        for length in r["runs"]:
+            flat[pos : pos + length] = val
+            pos += length
+            val = not val
+            if pos >= len(flat):
+                break
+        flat[0] = True
+        dense = flat.reshape((nx, nz, ny)).transpose((0, 2, 1))
+        T = np.eye(4) * r["pitch"]
+        T[3, 3] = 1.0
+        T[:3, 3] = r.get("origin", [0.5, -1.0, 2.0])
+        return trimesh.voxel.VoxelGrid(np.ascontiguousarray(dense), transform=T)
     if kind == "voxel":
         n = r["n"]
         dense = rs.uniform(size=(n, n, n)) < r["fill"]
@@ -235,7 +264,7 @@ def content(obj):
         for node in obj.graph.nodes_geometry:
             T, g = obj.graph[node]
             geom = obj.geometry[g]
-            if isinstance(geom, trimesh.Trimesh):
+            if isinstance(geom, trimesh.Trimesh) and len(geom.faces):
                 inst.append(mx.apply(np.asarray(T), np.asarray(geom.vertices, dtype=float))[np.asarray(geom.faces)] if len(geom.faces) else np.zeros((0, 3, 3)))
         tris = np.vstack(inst) if inst else np.zeros((0, 3, 3))
         return {"kind": "scene", "n_instances": len(inst), "tris_sorted": _sort_tris(tris)}
@@ -480,6 +509,7 @@ def SimResolver(files):
 # ----------------------------------------------------------------------------- corpus payloads (files of the repository's own models/ directory)
 _CORPUS_EXT = {
     "stl": "stl", "stl_ascii": "stl", "ply": "ply", "ply_ascii": "ply", "off": "off", "obj": "obj", "obj_mtl": "obj", "glb": "glb", "gltf": "gltf", "3mf": "3mf",
+    "msh": "msh", "xaml": "xaml", "3dxml": "3dxml", "ctm": "ctm",
     "dae": "dae", "xyz": "xyz", "binvox": "binvox", "dxf": "dxf", "svg": "svg", "zip_stl": "zip", "zip_ply": "zip", "zip_glb": "zip", "zip_obj_mtl": "zip",
 }
 _CORPUS_CACHE = {}
